@@ -329,3 +329,5 @@ def check(ctx):
     import_rules(ctx, "c06", {"writer-arms", "free-slot-field-position"})
     import_rules(ctx, "c09", {"sizer-covers-writer", "slot-honoured"})
     import_rules(ctx, "c01", {"op-wiring", "lookup-result"})
+    # a relocated key record is read and written back through the key type's from_bytes / as_bytes: they must be byte-exact
+    import_rules(ctx, "c10", {"byte-identity"})
